@@ -3,7 +3,9 @@
 import json, os, sys
 ROOT = os.path.dirname(os.path.dirname(os.path.abspath(__file__)))
 sys.path.insert(0, os.path.join(ROOT, "tools"))
-from props import PROPS, NOT_APPLICABLE, HOOK_COMMITS
+import subprocess
+from props import PROPS, NOT_APPLICABLE
+HOOK_COMMITS = subprocess.run(['git','-C','/repo','log','--format=%h %s','--grep=^verif hook'],stdout=subprocess.PIPE,text=True).stdout.strip().split('\n')
 checks = []
 for pid in sorted(PROPS):
     P = PROPS[pid]
